@@ -2,9 +2,10 @@
 C19 — Nested selectors combine as Sass specifies.  Property theorems only; helper lemmas are
 in RsassModel/Sel/NestLemmas.lean, the model in RsassModel/Sel/Nest.lean.
 
-`nestSpec` = all deviation flags off (what the property demands) = `nestAsis`, the code today
-(since /repo d714329 and 1acf5fd); `nestOld` = the code before: `ampViaUnify` (`resolve_ref`
-pushed the substituted compound through `Selector::unify`), `suffixUnwrapPanics`.
+`nestSpec` = all deviation flags off (what the property demands); `nestAsis` = the code today:
+one open deviation, `appendIdLastWins` (`#a { &#b }` gives `#b`); `nestOld` = the code before
+/repo d714329 and 1acf5fd: also `ampViaUnify` (`resolve_ref` pushed the substituted compound
+through `Selector::unify`) and `suffixUnwrapPanics`.
 -/
 import RsassModel.Sel.NestLemmas
 
@@ -46,46 +47,50 @@ theorem nest_set_no_amp (q : NestQuirks) (outers inners backref : SelSet)
   intro i hii
   exact Selector.print_nest o (ho o hoo) i (hi i hii).1
 
-/-- `&-x` (specification flags): against an outer selector whose last compound ends in a
-class, the result is the outer selector's text followed by the suffix, in both styles. -/
-theorem amp_suffix (cm : Bool) (s : Selector) (sfx : List Char) (e : Option (List Char))
-    (p cl : List (List Char)) (i : Option (List Char))
+/-- `&-x` (specification flags, and the code today): against an outer selector whose last
+compound ends in a class, the result is the outer selector's text followed by the suffix, in
+both styles. -/
+theorem amp_suffix (q : NestQuirks) (hq : q.ampViaUnify = false) (cm : Bool) (s : Selector) (sfx : List Char)
+    (e : Option (List Char)) (p cl : List (List Char)) (i : Option (List Char))
     (hs : s.compound = .mk false e p cl i [] []) (hne : cl ≠ []) (hall : ∀ x ∈ cl, x ≠ []) :
-    (resolveOne nestSpec s (.mk false (some sfx) [] [] none [] [])).map (Selector.print cm)
+    (resolveOne q s (.mk false (some sfx) [] [] none [] [])).map (Selector.print cm)
       = [Selector.print cm s ++ sfx] := by
-  obtain ⟨ap, hap, hp⟩ := Compound.print_append_suffix_class cm e p cl i sfx hne hall
-  have hq : nestSpec.ampViaUnify = false := rfl
+  obtain ⟨ap, hap, hp⟩ := Compound.print_append_suffix_class cm e p cl i sfx hne hall (!q.appendIdLastWins)
   simp only [resolveOne, hs, hap, hq, Bool.false_eq_true, if_false, List.map_cons, List.map_nil]
   rw [Selector.print_setCompound_of cm s ap sfx (by rw [hs]; exact hp)]
 
 example : (Selector.rel .parent (.leaf (Compound.ofElem "b")) (Compound.ofClass "a")).compound
     = .mk false none [] [['a']] none [] [] := rfl
 
-/-- `&` inside a pseudo-class argument (specification flags): `:not(&)` becomes `:not(` the
-whole outer selector list `)`, in both styles. -/
-theorem amp_in_pseudo (cm : Bool) (ctx : SelSet) (n : List Char) (e : Bool)
-    (hctx : ∀ s ∈ ctx, s.compound.backref = false)
+/-- `&` inside a pseudo-class argument (specification flags, and the code today): `:not(&)`
+becomes `:not(` the whole outer selector list `)`, in both styles. -/
+theorem amp_in_pseudo (q : NestQuirks) (hq : q.ampViaUnify = false) (cm : Bool) (ctx : SelSet)
+    (n : List Char) (e : Bool) (hctx : ∀ s ∈ ctx, s.compound.backref = false)
     (hn : nameIn n (nthNames.map String.toList) = false) :
-    Pseudo.print cm (Pseudo.resolveRef nestSpec ctx (.mk n (.sel [.leaf Compound.amp]) e))
+    Pseudo.print cm (Pseudo.resolveRef q ctx (.mk n (.sel [.leaf Compound.amp]) e))
       = ':' :: (if e then [':'] else []) ++ n ++ '(' :: SelSet.print cm ctx ++ [')'] := by
-  obtain ⟨f, hf, hpr⟩ := resolveOneList_spec_amp cm ctx hctx
-  have h1 : Selector.resolveRef nestSpec ctx (.leaf Compound.amp) = ctx.map f := by
+  obtain ⟨f, hf, hpr⟩ := resolveOneList_spec_amp cm q hq ctx hctx
+  have h1 : Selector.resolveRef q ctx (.leaf Compound.amp) = ctx.map f := by
     simp [Selector.resolveRef, Compound.resolveInPseudo, Compound.amp, Pseudo.resolveRefList,
       resolveCompound, Compound.backref, Compound.setBackref, hf]
   simp [Pseudo.resolveRef, PArg.resolveRef, Selector.resolveRefRows, h1, roundRobin_singleton,
     Pseudo.print, hn, PArg.print, SelSet.print, Selector.printList_map_congr cm f ctx hpr]
 
+example : nestSpec.ampViaUnify = false ∧ nestAsis.ampViaUnify = false := ⟨rfl, rfl⟩
+
 /-- Old code (`ampViaUnify`, repaired by d714329), partial: when the substituted compound has a non-empty
-unification with the empty compound that changes nothing, the code's result is the specified
-one.  (The full statement — equality for all inputs — is refuted below.) -/
+unification with the empty compound that changes nothing, the old code's result is that of the
+code today.  (The full statement — equality for all inputs — is refuted below.) -/
 theorem amp_replace_partial (s : Selector) (c ap : Compound)
     (hap : s.compound.append c = some ap) (hu : ap.unifyEmpty = some ap) (hne : ap.isEmpty = false) :
-    resolveOne nestOld s c = resolveOne nestSpec s c := by
+    resolveOne nestOld s c = resolveOne nestAsis s c := by
   have hq : nestOld.ampViaUnify = true := rfl
-  have hq' : nestSpec.ampViaUnify = false := rfl
+  have hq' : nestAsis.ampViaUnify = false := rfl
+  have hi : nestOld.appendIdLastWins = true := rfl
+  have hi' : nestAsis.appendIdLastWins = true := rfl
   cases s with
-  | leaf c0 => simp [resolveOne, hap, hu, hq, hq', Selector.setCompound]
-  | rel k r c0 => simp [resolveOne, hap, hu, hq, hq', hne, Selector.setCompound]
+  | leaf c0 => simp [resolveOne, hap, hu, hq, hq', hi, hi', Selector.setCompound]
+  | rel k r c0 => simp [resolveOne, hap, hu, hq, hq', hi, hi', hne, Selector.setCompound]
 
 /-- the hypothesis of `amp_replace_partial` is met by `.a { &.b }` -/
 example : ∃ ap, (Selector.leaf (Compound.ofClass "a")).compound.append (Compound.ofClass "b") = some ap ∧
@@ -109,8 +114,26 @@ theorem amp_pseudo_element_old_refuted :
       = ["a:before:hover".toList] := by
   decide
 
-/-- The code today is the specification model. -/
-theorem asis_is_spec : nestAsis = nestSpec := rfl
+/-- Deviation `appendIdLastWins`, partial: when the `&` compound carries no id of its own, the
+code today gives the specified result. -/
+theorem amp_id_partial (s : Selector) (c : Compound) (h : c.id = none) :
+    resolveOne nestAsis s c = resolveOne nestSpec s c := by
+  have e : Compound.appendWith (!nestAsis.appendIdLastWins) s.compound c
+      = Compound.appendWith (!nestSpec.appendIdLastWins) s.compound c := by
+    exact Compound.mergeInto_id_none _ _ _ c h
+  have hq : nestAsis.ampViaUnify = nestSpec.ampViaUnify := rfl
+  simp only [resolveOne, e, hq]
+
+example : (Compound.ofClass "b").id = none := rfl
+
+/-- Refutation of the full statement for the code as it is: `#a { &#b {…} }` is emitted as `#b`,
+the property demands `#a#b` (witness of open finding C19-amp-id-suffix-lost). -/
+theorem amp_id_suffix_asis_refuted :
+    (resolveOne nestAsis (.leaf (.mk false none [] [] (some ['a']) [] []))
+        (.mk false none [] [] (some ['b']) [] [])).map (Selector.print false) = ["#b".toList]
+    ∧ (resolveOne nestSpec (.leaf (.mk false none [] [] (some ['a']) [] []))
+        (.mk false none [] [] (some ['b']) [] [])).map (Selector.print false) = ["#a#b".toList] := by
+  decide
 
 /-- A `&` that cannot be resolved is never a panic under the specification flags (it is the
 error `Parent ".." is incompatible with this selector.`), for every sheet. -/
